@@ -62,6 +62,7 @@ def derivative(poly: PolyLike, *diffvars: Union[ndpoly, str, int]) -> ndpoly:
             exponents=exponents,
             coefficients=coefficients,
             names=poly_ref.names,
+            retain_coefficients=False,
         )
         poly, poly_ref = numpoly.align_polynomials(poly, poly_ref)
     return poly
